@@ -7,6 +7,7 @@ import (
 	"strings"
 
 	mocker "github.com/tencent/goom"
+	"github.com/tencent/goom/internal/patch"
 	"github.com/tencent/goom/zzverif/corpus/fn"
 )
 
@@ -23,6 +24,7 @@ type lifeWorld struct {
 	b     map[string]*mocker.Builder
 	used  map[string]bool // placeholder handed to goom in this behaviour
 	calls int
+	drops bool // a builder was dropped with its mocks installed (Keep.tla): End() unpatches through the patch table
 }
 
 func (w *lifeWorld) Name() string { return "life/" + w.kind }
@@ -44,6 +46,7 @@ func (w *lifeWorld) Begin() {
 	w.heldE = map[string]mocker.ExportedMocker{}
 	w.heldU = map[string]mocker.UnExportedMocker{}
 	w.via = "lookup"
+	w.drops = false
 }
 
 // symbol name of the target's code
@@ -243,6 +246,22 @@ func (w *lifeWorld) Do(st Step) string {
 			}
 		case "Reset":
 			w.builder(b).Reset()
+		case "Drop":
+			// the test drops every reference to the builder and to the handles it got from it
+			delete(w.b, b)
+			for k := range w.heldE {
+				if strings.HasPrefix(k, b+"/") {
+					delete(w.heldE, k)
+				}
+			}
+			for k := range w.heldU {
+				if strings.HasPrefix(k, b+"/") {
+					delete(w.heldU, k)
+				}
+			}
+			w.drops = true
+		case "GC":
+			churn()
 		case "Mistake":
 			w.mistake(b, t, st.Str("kind"))
 		case "OpenDebug":
@@ -401,6 +420,9 @@ func (w *lifeWorld) End() string {
 	for _, b := range w.b {
 		catch(func() { b.Reset() })
 	}
+	if w.drops {
+		patch.UnpatchAll() // mocks of dropped builders can only be removed through the patch table
+	}
 	im := theImage()
 	// everything except placeholder bodies that were handed over must be pristine again
 	var allowed []rng
@@ -441,5 +463,8 @@ func init() {
 		return []World{&lifeWorld{kind: "func"}, &lifeWorld{kind: "method"}, &lifeWorld{kind: "uefunc"}, &lifeWorld{kind: "uemethod"}}
 	}
 	worlds["life-func"] = func() []World { return []World{&lifeWorld{kind: "func"}} }
+	worlds["life-keep"] = func() []World {
+		return []World{&lifeWorld{kind: "func"}, &lifeWorld{kind: "method"}, &lifeWorld{kind: "uefunc"}, &lifeWorld{kind: "uemethod"}, &lifeWorld{kind: "generic"}}
+	}
 	worlds["life-generic"] = func() []World { return []World{&lifeWorld{kind: "generic"}} }
 }
